@@ -2538,9 +2538,14 @@ func (db *DB) ApplyLTXNoLock(path string, fatalOnError bool) (retErr error) {
 			return fmt.Errorf("decode ltx page[%d]: %w", i, err)
 		}
 
-		// Update the mode if this is the first page and the write/read versions as set to WAL (2).
-		if phdr.Pgno == 1 && pageBuf[18] == 2 && pageBuf[19] == 2 {
-			dbMode = DBModeWAL
+		// Update the mode if this is the first page: the write/read versions
+		// are set to WAL (2) or to the rollback journal (1).
+		if phdr.Pgno == 1 {
+			if pageBuf[18] == 2 && pageBuf[19] == 2 {
+				dbMode = DBModeWAL
+			} else {
+				dbMode = DBModeRollback
+			}
 		}
 
 		// Copy to database file.
